@@ -44,6 +44,9 @@ def make_obs(ctx):
                   unwind=40, group='dtadd-rs:daisy', timeout=900, remove_bodies=core.prune_cals(['daisy']),
                   bounds={'start': 'within 3 s either side of every listed leap second (entry symbolic)',
                           'N': '-5..5 real seconds'}))
+    obs.append(Ob('dtdiff-rs:daisy:all', H, 'h_dtdiff_rs', {'WITH_DTCORE': 1, 'REP': REPS['daisy']}, units=DT_UNITS,
+                  unwind=40, group='dtdiff-rs:daisy', timeout=900, remove_bodies=core.prune_cals(['daisy']),
+                  bounds={'instants': 'two instants within 20 s either side of any listed leap second (entry symbolic), either order'}))
     idxs = range(2, 29) if ctx.tier == 'thorough' else ()
     for i in idxs:
         obs.append(Ob('dtadd-rs:ymd:entry%d' % i, H, 'h_dtadd_rs', {'WITH_DTCORE': 1, 'REP': REPS['ymd'], 'IDX': i},
